@@ -3,7 +3,8 @@
      val  := I z | N | G k val*k
      aexp := V l | R i | F k aexp | D aexp
      sop  := W aexp z | C aexp aexp | A aexp aexp | P id n aexp*n
-     op   := S sop | Z n | L aexp | K np (mode aexp)*np nb sop*nb ret        mode := v | p | r | a | s
+     op   := S sop | Z n | L aexp | K np (mode aexp)*np nb stmt*nb ret       mode := v | p | r | a | s
+     stmt := sop | K np (mode aexp)*np nb sop*nb ret      (a call made from inside a callee body)
      ret  := 0 | 1 aexp | 2 aexp aexp
    Output per case: two lines  "S <ok> l1|l2|..."  (aliasing semantics) and "M <ok> ..." (copy-in/write-through/
    copy-back for array parameters and self), each li a space-separated list of integers. *)
@@ -44,21 +45,38 @@ let p_sop () =
   | t -> failwith ("sop " ^ t)
 let p_mode () =
   match next () with "v" -> MVal | "p" -> MPtr | "r" -> MRef | "a" -> MArr | "s" -> MSelf | t -> failwith ("mode " ^ t)
+let p_ret () =
+  match next_int () with
+  | 0 -> None
+  | 1 -> let e = p_aexp () in Some (e, None)
+  | _ -> let e = p_aexp () in let d = p_aexp () in Some (e, Some d)
+let p_params () =
+  let np = next_int () in
+  times np (fun () -> let m = p_mode () in let a = p_aexp () in (m, a))
+(* a statement of a callee body: a simple statement, or (token K) a call made from inside the body *)
+let p_stmt () =
+  if !toks.(!pos) = "K" then begin
+    ignore (next ());
+    let ps = p_params () in
+    let nb = next_int () in
+    let body = times nb p_sop in
+    let ret = p_ret () in
+    TCall (ps, body, ret)
+  end else TS (p_sop ())
 let p_op () =
   match next () with
   | "S" -> OS (p_sop ())
   | "Z" -> ONop (nat_of_int (next_int ()))
   | "L" -> ODecl (p_aexp ())
   | "K" ->
-      let np = next_int () in
-      let ps = times np (fun () -> let m = p_mode () in let a = p_aexp () in (m, a)) in
+      let ps = p_params () in
       let nb = next_int () in
-      let body = times nb p_sop in
-      let ret = match next_int () with
-        | 0 -> None
-        | 1 -> let e = p_aexp () in Some (e, None)
-        | _ -> let e = p_aexp () in let d = p_aexp () in Some (e, Some d) in
-      OCall (ps, body, ret)
+      let body = times nb p_stmt in
+      let ret = p_ret () in
+      (* a call-free body is the old construct OCall (theorem nested_calls_conservative: same semantics) *)
+      if List.for_all (function TS _ -> true | TCall _ -> false) body
+      then OCall (ps, List.map (function TS s -> s | TCall _ -> assert false) body, ret)
+      else OCall2 (ps, body, ret)
   | t -> failwith ("op " ^ t)
 
 let show tag (out, ok) =
